@@ -189,13 +189,6 @@ def _job(mod_name, sub_name, tier, seed, shard, known_open, conn):
            "discard": {}, "timeouts": 0, "skipped_budget": 0, "nontrivial": set(),
            "labels": {}, "samples": [], "buckets": {}, "excluded_known": {},
            "harness": None, "wall": 0.0, "shrunk": {}}
-    cov = None
-    if os.environ.get("VERIF_COVERAGE_DIR"):
-        # development aid only (tools/coverage_report.sh): line coverage of the repository under the generated cases
-        import coverage
-        cov = coverage.Coverage(data_file=os.path.join(os.environ["VERIF_COVERAGE_DIR"], ".coverage"), data_suffix=True,
-                                include=[os.path.join(REPO_DIR, "tensorly", "*")], branch=True)
-        cov.start()
     try:
         import importlib
         import hypothesis
@@ -322,9 +315,6 @@ def _job(mod_name, sub_name, tier, seed, shard, known_open, conn):
     except BaseException:
         if out["harness"] is None:
             out["harness"] = {"case": None, "traceback": traceback.format_exc()[-3000:]}
-    if cov is not None:
-        cov.stop()
-        cov.save()
     out["wall"] = time.time() - t0
     out["nontrivial"] = sorted(out["nontrivial"])
     try:
